@@ -42,13 +42,13 @@ def gen(pid, tier, rng, n=None, poison=None):
             hist = [(0, ("get",))]
         probes = []
         if pid == "C17":
-            # Debug formatting with a payload whose own Debug impl reports an error (what a failing sink does to the
+            # Debug formatting with a payload whose own Debug impl reports an error or panics (what a failing sink does to the
             # lock's impl): not in the model's vocabulary, judged directly: no blocking operation, hold table unchanged
             tids = sorted({t for t, _ in hist})
             for c in u.roots:
                 for l in b.locks_of[c][:3]:
                     if rng.random() < 0.5:
-                        probes.append((rng.choice(tids), ("fmtfail", c, l)))
+                        probes.append((rng.choice(tids), (rng.choice(["fmtfail", "fmtpanic"]), c, l)))
             probes = probes[:6]
         scens.append(b.scen(hist=hist, pre=pre, unw=unw, probes=probes,
                             meta={"roots": [b.desc[c] for c in u.roots], "nt": nt}))
